@@ -265,7 +265,7 @@ func (w *Worker) diagnoseHang(c Case) Result {
 	g1, g2 = filter(g1), filter(g2)
 	allBlocked := len(g2) > 0
 	for _, g := range g2 {
-		if !blockedState(g.State) && !w.peerWait(g) {
+		if !(blockedState(g.State) && waitsInOwnCode(g)) && !w.peerWait(g) {
 			allBlocked = false
 		}
 	}
@@ -288,6 +288,20 @@ func (w *Worker) diagnoseHang(c Case) Result {
 		return r
 	}
 	return InconclusiveR(fmt.Sprintf("watchdog fired after %s without a deadlock certificate (grip goroutines=%d, allBlocked=%v, progress %d->%d)", w.Prop.CaseTimeout, len(g2), allBlocked, p1, p2))
+}
+
+// waitsInOwnCode: the channel/sync operation a goroutine is blocked in was issued
+// by grip (or harness) code. A goroutine that waits inside a library call (a
+// Badger flush, a gRPC call) is woken by goroutines of that library, which the
+// certificate does not look at: such a wait is never counted as blocked.
+func waitsInOwnCode(g Goroutine) bool {
+	for _, f := range g.Frames {
+		if strings.HasPrefix(f, "runtime.") || strings.HasPrefix(f, "sync.") || strings.HasPrefix(f, "internal/") {
+			continue
+		}
+		return strings.HasPrefix(f, gripPkg) || strings.HasPrefix(f, "main.") || strings.HasPrefix(f, "verifharness/")
+	}
+	return false
 }
 
 // peerWait: a goroutine in a select inside one of the property's PeerWaitFrames
